@@ -71,6 +71,8 @@ THEOREMS = [
     "Lena.C05.neg_slice_fill_into",
     "Lena.C05.neg_slice_fillRun",
     "Lena.C05.split_fill_eq_run",
+    "Lena.C05.bindS_breaksFlow",
+    "Lena.C05.nodata_dropped",
 ]
 TRUSTED = [
     "Lean 4.33.0 kernel; axioms limited to propext, Classical.choice, Quot.sound (audited by #print axioms on every run)",
@@ -87,8 +89,13 @@ ASSUMPTIONS = [
     "Python attribute lookup (hasattr/callable/isinstance Split/is None) is represented by capability flags read from the "
     "real objects",
     "element objects are used once (fresh objects per driver); elements inside RunIf are stateless",
-    "Count is used as an accumulator only wrapped in FillCompute(Count()) (it has run, fill/compute and a counting "
-    "fill_into; see DESIGN.md section 6, judgement calls) and bare only as a post-processing element",
+    "an accumulator Count is wrapped in FillCompute(Count()) (it has run, fill/compute and a counting fill_into; see "
+    "DESIGN.md section 6, judgement calls); a bare Count at the accumulator position is generated too and checked "
+    "against theorem count_dual (same delivered values, same count, different results), never as a pre-processing "
+    "element (its counting fill_into is not modelled)",
+    "a Split used through its own fill/compute (dual interface) is compared with Split.run only when no branch stops "
+    "(theorem split_fill_eq_run; notes/C05_observation_split_fill.md)",
+    "FillRequest, FillRequestSeq and Split branches of type fill_request/source/sequence belong to C16 and C03",
     "the three drivers are required to agree when no pre-processing element raises on the flow (hypothesis PreSafe of the "
     "theorems, evaluated here by an independent Python reference) or when there is no Slice before the accumulator: "
     "Slice.fill_into needs one more value than islice to notice the end, so an exception of an upstream callable on that "
@@ -96,13 +103,18 @@ ASSUMPTIONS = [
     "Mean's float result is compared as float(n)/float(d) computed from the model's exact pair",
 ]
 RULE = ("exhaustive: every pre-processing sequence of length <= 2 over representative elements of the property's kinds "
-        "(callable, Variable, Filter, non-negative Slice, RunIf) x every accumulator x fixed flows x bufsize in {1..n+1, "
-        "1000, None}; the complete adapter x capability x method-name table on synthetic classes (Call, Run, FillInto, "
-        "FillCompute, SourceEl) and on the real element kinds. sampled (seeded): chains pre^{0..3} acc post^{0..3} with "
-        "random elements (also elements outside the property's kinds: constructor errors), flows of length 0..8 of ints, "
-        "(data, context) pairs and mixed values; Splits of 2-4 fill_compute branches with early-stopping siblings. "
-        "Non-trivial: a chain with at least one pre- or post-processing element and a non-empty result, or an accepted "
-        "adapter.")
+        "(callable, Variable, Filter, non-negative Slice, RunIf incl. its constructor variants, a second flow-breaking "
+        "Run element that yields two values per value) x every accumulator x fixed flows x bufsize in {1..n+1, 1000, "
+        "None}; a bare Count as accumulator (dual interface); chains without a FillCompute element; the complete "
+        "adapter x capability x method-name table on synthetic classes (Call, Run, FillInto, FillCompute, SourceEl) and "
+        "on the real element kinds; every element x 6 flows x {input ends normally, input raises} for the two faces "
+        "of one element (op stage); FillSeq.__init__ on all pairs of 14 element kinds; Split.__init__ (not a list, "
+        "bufsize 0/-1); the sibling pattern for Split.run (tuple / prebuilt FillComputeSeq / bare element branches) and "
+        "for Split.fill+compute. sampled (seeded): chains pre^{0..3} acc post^{0..3} with random elements (also "
+        "elements outside the property's kinds: constructor errors), flows of length 0..8 of ints, (data, context) "
+        "pairs and mixed values; Splits of 2-4 fill_compute branches with early-stopping siblings, run and filled; "
+        "single elements on random flows. Non-trivial: a chain with at least one pre- or post-processing element and a "
+        "non-empty result, an accepted adapter, a stage that fills something.")
 CASE_TIMEOUT = 10
 
 # ----------------------------------------------------------------------------------------
@@ -331,6 +343,16 @@ class _Recorder(object):
         self.got.append(v)
 
 
+class _Dup(object):
+    """a Run element that can break the flow and yields two values for every value (like lena.flow.MapGroup)"""
+    _can_break_flow = True
+
+    def run(self, flow):
+        for v in flow:
+            yield v
+            yield [v]
+
+
 JUNK = {"int": 5, "none": None, "float": 2.5}
 
 
@@ -388,6 +410,8 @@ def build(spec):
         raise ValueError(a)
     if k == "syn":
         return syn_class(spec["attrs"], spec["call"], spec.get("nodata", False))()
+    if k == "dup":
+        return _Dup()
     if k == "junk":
         return JUNK[spec.get("v", "int")]
     if k == "setctx":
@@ -435,7 +459,7 @@ def run_convertible(el):
 # ----------------------------------------------------------------------------------------
 # independent reference: the flow processed eagerly, stage by stage, in plain Python (no lena code)
 
-PRE_KINDS = ("call", "var", "filter", "slice", "runif")
+PRE_KINDS = ("call", "var", "filter", "slice", "runif", "dup")
 
 
 class _RefSkip(Exception):
@@ -475,6 +499,10 @@ def ref_gen(spec, it):
                     yield r
             else:
                 yield v
+    elif k == "dup":
+        for v in it:
+            yield v
+            yield [v]
     elif k == "reverse":
         for v in reversed(list(it)):
             yield v
@@ -1309,7 +1337,7 @@ def gen_inner(rng, depth):
         elif r < 0.85:
             out.append({"k": "reverse"})
         elif r < 0.88:
-            out.append({"k": "end"})
+            out.append({"k": "end"} if rng.random() < 0.5 else {"k": "dup"})
         elif r < 0.9:
             out.append({"k": "junk", "v": "int"})
         elif depth < 2:
@@ -1329,8 +1357,10 @@ def gen_pre_el(rng, in_scope=True):
         return {"k": "var", "name": rng.choice(["x", "y"]), "f": rng.choice(["inc", "neg", "ident", "mod3"])}
     if r < 0.60:
         return {"k": "filter", "p": rng.choice(PREDS)}
-    if r < 0.82:
+    if r < 0.80:
         return {"k": "slice", "args": rng.choice(NONNEG_SLICES)}
+    if r < 0.85:
+        return {"k": "dup"}
     return gen_runif(rng, in_scope)
 
 
@@ -1402,8 +1432,10 @@ PRE_REPS = ([{"k": "call", "f": f} for f in ("inc", "boom", "wrap")]
             + [{"k": "slice", "args": a} for a in ([2], [0], [1, 4], [0, 5, 3], [5, 2], [1, None, 2])]
             + [{"k": "runif", "p": "even", "inner": [{"k": "call", "f": "inc"}, {"k": "call", "f": "wrap"}]},
                {"k": "runif", "p": "pos", "inner": [{"k": "filter", "p": "lt5"}]},
-               {"k": "runif", "p": "all", "inner": [{"k": "slice", "args": [0]}]}])
-QUICK_REPS = [PRE_REPS[i] for i in (0, 1, 3, 4, 5, 7, 9, 10, 11, 13, 14)]
+               {"k": "runif", "p": "all", "inner": [{"k": "slice", "args": [0]}]},
+               {"k": "dup"},
+               {"k": "runif", "p": "lt5", "inner": [{"k": "dup"}, {"k": "slice", "args": [1, 2]}]}])
+QUICK_REPS = [PRE_REPS[i] for i in (0, 1, 3, 4, 5, 7, 8, 9, 10, 11, 13, 16)]
 FLOW_A = [1, 2, 3, 4, 13, 6, 7]
 FLOW_B = [{"t": [3, {"d": {"a": 1}}]}, 4, {"t": [5, {"d": {"b": "x"}}]}, 8, {"t": [2, {"d": {}}]}]
 FLOW_C = [2, 4, 6]
@@ -1707,11 +1739,14 @@ def shrink(case):
 # ---- MANIFEST texts ------------------------------------------------------------------------
 LEVEL_TEXT = ("Lean 4 theorems about a transcribed model of the three drivers of a chain pre* acc post* (Sequence.run over "
               "lazily evaluated streams; the _Fill chain of FillSeq/FillComputeSeq filled value by value until LenaStopFill; "
-              "Split.run with fill_compute branches, any bufsize, any number of sibling branches), for ALL chains, "
-              "accumulators (abstract state machines), post-processing stages, flows and bufsizes; per-element "
-              "driver-consistency lemmas (callable, Filter, Slice, RunIf) and the adapter acceptance/binding tables; tied to "
-              "/repo by a correspondence check (exhaustive small scopes + seeded sampling) and a direct oracle comparing "
-              "the drivers on the real code.")
+              "Split.run with fill_compute branches, any bufsize, any number of sibling branches; Split.fill/compute), for "
+              "ALL chains, accumulators (abstract state machines), post-processing stages, flows and bufsizes; per-element "
+              "driver-consistency lemmas (callable, Filter, Slice, RunIf / any flow-breaking Run element), the safety "
+              "hypothesis characterised (preSafeB sound and complete), what holds outside the property's kinds (dual-"
+              "interface accumulators, negative Slice, elements without a fill face), the adapter acceptance/binding "
+              "tables and the constructors; tied to /repo by a correspondence check (exhaustive small scopes + seeded "
+              "sampling) that executes every definition the theorems mention, and a direct oracle comparing the drivers "
+              "on the real code.")
 LEVEL_NOTE = ("Trusted: Lean kernel (+ propext, Classical.choice, Quot.sound), the hand transcription validated by the "
               "correspondence run, generator/islice semantics as transcribed, the JSON protocol. Hypothesis of the main "
               "theorem: no pre-processing element raises on the flow (or there is no Slice before the accumulator).")
